@@ -100,6 +100,25 @@ structure DEParts (α : Type) where
   cz : α
   val : α
 
+/-- `Dsin`-like factor of `DE`: `cos((x+y)/2) sinc((y−x)/2)` (`sin` of the mean after the prolate flip, fix 15c4574) -/
+def deDs (flip : Bool) (x0 y0 : α) : α :=
+  let d := y0 - x0; let dh := d / 2
+  (if flip then RealLike.sin ((x0 + y0) / 2) else RealLike.cos ((x0 + y0) / 2)) * (if RealLike.eqb dh 0 then 1 else RealLike.sin dh / dh)
+
+/-- `Dt = tan(z/2)/d` -/
+def deDt (k2 Ds sx cx sy cy : α) : α :=
+  Ds * (sx + sy) / ((cx + cy) * (sx * RealLike.sqrt (1 - k2 * sy * sy) + sy * RealLike.sqrt (1 - k2 * sx * sx)))
+
+/-- from `d`, `Dt` to the value: `t`, `sin z / d`, `sin z`, `cos z`, `E(z)/sin z` through the kernels, the addition theorem -/
+def deTail (RF RD : α → α → α → α) (k2 den d Dt sx sy : α) : DEParts α :=
+  let t := d * Dt
+  let Dsz := 2 * Dt / (1 + t * t)
+  let sz := d * Dsz
+  let cz := (1 - t) * (1 + t) / (1 + t * t)
+  let sz2 := sz * sz; let cz2 := cz * cz; let dz2 := 1 - k2 * sz2
+  let Ezbsz := RF cz2 dz2 1 - k2 * sz2 * RD cz2 dz2 1 / 3
+  { d := d, Dt := Dt, t := t, Dsz := Dsz, sz := sz, cz := cz, val := (Ezbsz - k2 * sx * sy) * Dsz / den }
+
 /-- `DAuxLatitude::DE(X, Y)` around the kernels `RF(·, ·, 1)` and `RD(·, ·, 1)` -/
 def DEparts (RF RD : α → α → α → α) (E : Ell α) (X Y : Ang α) : DEParts α :=
   let Xn := normalized X; let Yn := normalized Y
@@ -109,16 +128,8 @@ def DEparts (RF RD : α → α → α → α) (E : Ell α) (X Y : Ang α) : DEPa
   let x0 := RealLike.atan2 xy Xn.2; let y0 := RealLike.atan2 yy Yn.2
   let sx := if flip then Xn.2 else xy; let cx := if flip then xy else Xn.2
   let sy := if flip then Yn.2 else yy; let cy := if flip then yy else Yn.2
-  let d := y0 - x0; let dh := d / 2
-  let Ds := (if flip then RealLike.sin ((x0 + y0) / 2) else RealLike.cos ((x0 + y0) / 2)) * (if RealLike.eqb dh 0 then 1 else RealLike.sin dh / dh)
-  let Dt := Ds * (sx + sy) / ((cx + cy) * (sx * RealLike.sqrt (1 - k2 * sy * sy) + sy * RealLike.sqrt (1 - k2 * sx * sx)))
-  let t := d * Dt
-  let Dsz := 2 * Dt / (1 + t * t)
-  let sz := d * Dsz
-  let cz := (1 - t) * (1 + t) / (1 + t * t)
-  let sz2 := sz * sz; let cz2 := cz * cz; let dz2 := 1 - k2 * sz2
-  let Ezbsz := RF cz2 dz2 1 - k2 * sz2 * RD cz2 dz2 1 / 3
-  { d := d, Dt := Dt, t := t, Dsz := Dsz, sz := sz, cz := cz, val := (Ezbsz - k2 * sx * sy) * Dsz / (if flip then 1 - E.f else 1) }
+  let Dt := deDt k2 (deDs flip x0 y0) sx cx sy cy
+  deTail RF RD k2 (if flip then 1 - E.f else 1) (y0 - x0) Dt sx sy
 
 def DE (RF RD : α → α → α → α) (E : Ell α) (X Y : Ang α) : α := (DEparts RF RD E X Y).val
 
